@@ -368,6 +368,26 @@ def composed(chk, ctx, f, marshal_of):
                             T.show(rw.rw(r.n)), T.show(total),
                             '; conditions not established: %s' % badc[:2]
                             if badc else ''), site=site)
+    # the header's own unmarshal() reports the 8 octets it read (the frame
+    # layer passes its own constant on, so this is the direct API)
+    pum = prog.find_method(prog.cls('header.ProtocolHeader'), 'unmarshal')
+    if pum is not None:
+        it_p = ctx.interp()
+        st_p = ctx.new_state()
+        it_p.cur_module, it_p.pending, it_p.stack = pum.module, [], []
+        ref_p = it_p.instantiate(prog.cls('header.ProtocolHeader'), [], {},
+                                 st_p, pum.node)
+        it_p.flush_pending()
+        from .. import codec as _codec
+        outs_p = it_p.run_function(pum, [ref_p, _codec.buf('data')], {},
+                                   st_p)
+        vals_p = sorted({T.show(o.value) for o in outs_p
+                         if o.kind == 'return'})
+        chk.ob('C18.V', 'ProtocolHeader.unmarshal consumed',
+               vals_p == ['8'], 'returns %s' % ', '.join(vals_p),
+               detail={'expected': '8 (AMQP, the zero octet and three '
+                       'version octets)'},
+               site='%s:%d' % (pum.module.relpath, pum.node.lineno))
     # ---- heartbeat
     w, _it, _outs = marshal_of('heartbeat.Heartbeat', {})
     rets = [r for r in f.rets if f.kind_of(r) == 'heartbeat']
